@@ -590,14 +590,16 @@ def r203(ctx, rep, f, ev, cg, reach):
     if ci in f.fns:
         from ..thir import canon_guard
         ev.watch = lambda c: c == ct or c.endswith("Sender::<T>::send")
+        ev.bitfields = True   # TDH flag word as named bits: internal_trigger is bit 12 however it is masked / shifted
         try:
             recs = ev.collect_ifs(ci, [Sym("self"), Sym("sl")])
         finally:
             ev.watch = None
+            ev.bitfields = False
         per = "sym(call:fastpasta::config::check::ChecksOpt::check_its_trigger_period(sym(self.config)))"
         g1 = "symc(isSome(%s))" % per
         g2 = "symc(isSome(sym(self.status_words.tdhs.previous_tdh_with_internal_set)))"
-        g3 = "Eq(sym(Shr(sym(BitAnd(sym(unwrap(sym(self.status_words.tdhs.current_tdh)).trigger_type_internal_trigger_no_data_continuation_reserved2),0x1000)),0xc)),0x1)"
+        g3 = "any(unwrap(sym(self.status_words.tdhs.current_tdh)).trigger_type_internal_trigger_no_data_continuation_reserved2[12])"
         calls = [o for o in recs if "call" in o and o["call"] == ct]
         sends = [o for o in recs if "call" in o and o["call"].endswith("::send")]
         exp = ["sym(unwrap(sym(self.status_words.tdhs.current_tdh)))", "sym(payload(sym(self.status_words.tdhs.previous_tdh_with_internal_set),Some))",
@@ -653,10 +655,14 @@ def r203(ctx, rep, f, ev, cg, reach):
     # reference update
     W3 = "fastpasta/src/analyze/validators/its/status_word/util.rs"
     rp = "fastpasta::analyze::validators::its::status_word::util::TdhBuffer::replace"
-    out = ev.collect_ifs(rp, [Sym("self"), Sym("tdh")]) if rp in f.fns else []
+    ev.bitfields = True
+    try:
+        out = ev.collect_ifs(rp, [Sym("self"), Sym("tdh")]) if rp in f.fns else []
+    finally:
+        ev.bitfields = False
     old = "sym(call:core::option::Option::<T>::replace(sym(self.current_tdh),sym(tdh)))"
     asg = [o for o in out if "assign" in o and o["assign"][1] == "sym(self.previous_tdh_with_internal_set)"]
-    gexp = "and[Eq(sym(Shr(sym(BitAnd(sym(payload(%s,Some).trigger_type_internal_trigger_no_data_continuation_reserved2),0x1000)),0xc)),0x1);symc(isSome(%s))]" % (old, old)
+    gexp = "and[any(payload(%s,Some).trigger_type_internal_trigger_no_data_continuation_reserved2[12]);symc(isSome(%s))]" % (old, old)
     ok = len(asg) == 1 and asg[0]["assign"][2] == old and tuple(asg[0]["guard"]) == (gexp,)
     rep.check(ok, "R20.3", "R20.3|reference|TdhBuffer::replace", "reference := outgoing current TDH iff it had the internal-trigger bit", W3,
               "TdhBuffer::replace does not set previous_tdh_with_internal_set to the outgoing TDH exactly when its internal_trigger bit is 1: %s"
